@@ -35,6 +35,19 @@ func init() {
 		"huge_family_prefix_cases_with_cardinality_in[2^63,2^64):Product",
 		"huge_family_prefix_cases_with_cardinality_a_multiple_of_2^64:RestrictedPrefixProduct", "huge_family_prefix_cases_with_cardinality_mod_2^64_below_the_prefix_length:RestrictedPrefixProduct",
 		"huge_products_restricted_to_a_small_family_and_drained", "empty_products_with_huge_factors", "huge_multiplicities_small_size_cases(drained)",
+		// results that the documentation gives to the caller (results.go)
+		"appends_to_a_part_that_is_not_the_last_part_of_the_result:Partitions", "appends_to_the_outer_slice_of_results:Partitions",
+		"modified_result_checks_after_Next_of_its_own_iterator:Partitions", "modified_result_checks_after_two_or_more_Next_calls_of_its_own_iterator:Partitions",
+		"companion_view_compared_before_and_after_Value_was_modified:MultisetCombinations.Value", "Value_called_again_compared_with_the_first_result",
+		"result_histories_with_several_iterators:sequential", "result_histories_with_several_iterators:interleaved", "result_histories_with_several_iterators:seeded-interleaving",
+		"bystander_value_checks(value of an iterator whose results are not modified, compared after results of other iterators were modified)",
+	}
+	for _, n := range []string{"Partitions", "MultisetCombinations.Value"} {
+		req = append(req, "caller_modified_results:"+n, "caller_operations_each_followed_by_a_comparison_with_the_model:"+n, "entries_of_results_overwritten:"+n, "appends_to_returned_slices:"+n,
+			"Value_called_again_after_the_first_result_was_modified:"+n, "modified_result_checks_after_other_iterators_were_operated:"+n)
+		for _, t := range resultTreatments {
+			req = append(req, "result_treatments:"+n+":"+t)
+		}
 	}
 	for _, a := range apis {
 		req = append(req, "cases:"+a, "huge_family_prefix_cases:"+a, "huge_family_prefix_cases_with_cardinality>=2^64:"+a)
@@ -48,6 +61,10 @@ func init() {
 			"with the iterators run sequentially, built first and then drained, and interleaved one Next each; the slice (and the array around it) is compared with what the caller put there after the constructor and after every Next, every iterator is judged against the family of the caller's values, and a value handed out by an iterator must still be the same after other iterators were advanced; the constructors without slice argument run in interleaved sessions too. " +
 			"Parameter magnitudes: for EVERY constructor families with more than 2^31 / 2^32 / 2^63 / 2^64 objects (cardinalities computed with big integers: multiples of 2^32 and 2^64, values that wrap to less than the prefix length modulo 2^32 / 2^64, values between 2^63 and 2^64; factor sizes and n up to MaxInt, 62..200 factors, permutations of 13..130 elements, Partitions up to n = 100, IntegerPartitions up to n = 3000) " +
 			"are judged on their first 300 (1500 thorough) objects: exact comparison with an independently generated prefix where the order is documented, otherwise distinct members of the family and no exhaustion (Product against its twin RestrictedPrefixProduct under the always-true predicate; the order seen is recorded); huge parameters with a small family (multiplicities >= 2^31 with k <= 5, an empty factor next to factors of 2^32, 64..100 factors under predicates that keep few tuples) are drained. " +
+			"Results the documentation gives to the caller (Partitions: 'It is safe to modify the output of .Value()'; MultisetCombinations.Value: 'You may modify the return value' - all other Value / FreqValue / InverseValue results are documented as not to be modified and are never written to): " +
+			"every value of Partitions(n), n <= 8 (9 thorough), and of MultisetCombinations(m,k) for every multiplicity vector of length <= 4 and sum <= 5 (6 thorough) and all k, seeded longer and 65/130-entry vectors, is treated as the caller's: every entry overwritten, one / many elements APPENDED to every part forwards and backwards (also to parts that are not the last one) and new parts appended to the outer slice, " +
+			"the spare capacity of every returned slice written through a re-slice, parts truncated and regrown, dropped and refilled, Value called again for the same object, the modified values kept while the iterator goes on (Value read after every 1st / 2nd / 3rd / 5th Next) and while other iterators (same and other constructors, sequential, interleaved, seeded interleaving) run; " +
+			"the treatment of the i-th value cycles through the table with every shift (so every value of Partitions(n <= 6) meets every treatment) plus seeded treatments; after EVERY caller operation the value is compared with a model kept in storage the library never saw, FreqValue is compared before and after, and the enumeration is judged against the reference as everywhere else. " +
 			"Each iterator is driven for at most |expected|+1+3 calls of Next; every Value is copied at once and compared with a naive reference list (exact sequence where an order is documented, as a set otherwise), " +
 			"then three further Next calls must return false. non-trivial = the expected family has >= 2 objects and, for predicate-driven iterators, the predicate rejected at least one argument; distinct = hash of (constructor, parameters, predicate)",
 		Assumptions: []string{
@@ -60,6 +77,8 @@ func init() {
 			"caller-owned arguments: Product, RestrictedPrefixProduct (source: deep copy of n in case it changes) and MultisetPermutations (expands freq into its own array) take a private copy, so overwriting or reusing the caller's slice after construction must not change the enumeration (judged); MultisetCombinations keeps the caller's m and nothing documents otherwise (recorded as not_judged:MultisetCombinations_aliases_m); returned values are overwritten only where the documentation allows it (Partitions, MultisetCombinations.Value)",
 			"a slice argument is an input: no constructor documents that it writes to its argument, so the library changing the caller's slice (or the caller's array behind it) is judged (argument-modified), and iterators built later from the same, untouched slice have to enumerate the family of the values the caller put there; a value handed out by Value / FreqValue / InverseValue has to stay the same object until its OWN iterator is advanced (advancing other iterators must not change it)",
 			"families too large to exhaust: only a prefix is judged. Where the order is documented the prefix is compared exactly with an independently generated reference prefix; where it is not (Product, RestrictedPrefixProduct, Permutations, PermutationsByPattern, TopologicalSorts, MultisetCombinations) any distinct members are accepted and only a non-member, a repeat or reported exhaustion is a violation; the cardinalities used to pick the cases are computed with math/big",
+			"results documented as the caller's (Partitions.Value, MultisetCombinations.Value): judged - after each write / append / re-slice by the caller the value holds exactly what the caller put there (parts of one result do not overlap, not even in their spare capacity), FreqValue and a second Value call for the same object are unaffected, the enumeration goes on as the reference says, the modified value is unchanged after other iterators were operated and (Partitions, whose results are fresh objects) after further Next calls of its own iterator; " +
+				"recorded, not judged - an earlier result after Value of the same iterator was called again (MultisetCombinations documents a buffer; 'safe to modify' does not say 'a copy'), a MultisetCombinations result after Next of its own iterator, the spare capacity of returned slices. Results documented as not to be modified are never modified",
 			"nothing is demanded of Value() after exhaustion (it is not called); the block order inside Partitions values and the element order inside MultisetCombinations values are not judged",
 		},
 		Run:            run,
@@ -1387,6 +1406,7 @@ func run(c *engine.Ctx) {
 
 	runLarge(c)
 	runOwned(c)
+	runResults(c)
 	runSessions(c)
 	runHuge(c)
 }
